@@ -52,6 +52,10 @@ def gen_shrink_case(rng, i):
     else:
         olds, news = repr(old), repr(new)
     src = f"from inline_snapshot import snapshot\n\n\ndef test_a():\n    assert {news} == snapshot({olds})\n"
+    if rng.random() < 0.6:
+        # below it, in the same file: a snapshot whose new value no longer fits on one line (the edits above moved it by several lines)
+        grow = [rng.randint(100000, 999999) for _ in range(rng.randint(14, 22))]
+        src += f"\n\ndef test_b():\n    assert {grow!r} == snapshot([{grow[0]}])\n"
     return {"source": src, "pyproject": PYPROJECTS[i % len(PYPROJECTS)], "flags": ("fix",), "setup": "black", "make_clean": True, "sites": []}
 
 
